@@ -17,6 +17,9 @@ EXPRS = {
     "t and not u": ("and", L("t"), ("not", L("u"))), "t*": L("t*"),
     "-t": ("not", L("t")), "~t": ("not", L("t")), "t,u": ("or", L("t"), L("u")), "@t": L("t"),
     "not u": ("not", L("u")),
+    # several --tags arguments are AND-ed (list form), in both dialects
+    "t && not u": ("and", L("t"), ("not", L("u"))), "t && -u": ("and", L("t"), ("not", L("u"))),
+    "t,u && -u": ("and", ("or", L("t"), L("u")), ("not", L("u"))), "t or u && not t": ("and", ("or", L("t"), L("u")), ("not", L("t"))),
 }
 
 ERRC = {"error", "hook_error", "undefined", "pending", "cleanup_error"}
